@@ -109,6 +109,38 @@ def check_deep(case, acc):
     acc.tag("deep_tree_cases")
 
 
+def check_abyss(case, acc):
+    """Chains far deeper than anything else here (tens of thousands of levels, grown upwards so that building stays linear):
+    the walker works on root paths, which are computed with a loop - depth is no reason for anything but the answer."""
+    make = nodes.factory(case["cls"])
+    depth = case["depth"]
+    chain = [make(0)]  # chain[0] is the deepest node
+    for i in range(1, depth):
+        top = make(i)
+        chain[-1].parent = top
+        chain.append(top)
+    leaf, root, mid = chain[0], chain[-1], chain[depth // 2]
+    other = make(depth + 1)
+    walker = Walker()
+    for a, b, up, common, down in ((leaf, root, depth - 1, root, 0), (root, leaf, 0, root, depth - 1), (leaf, mid, depth // 2, mid, 0), (mid, mid, 0, mid, 0)):
+        got = walker.walk(a, b)
+        if len(got[0]) != up or got[1] is not common or len(got[2]) != down:
+            raise Violation("common", "chain of %d nodes: walk gives %d up, %d down, common %s - expected %d up, %d down" % (depth, len(got[0]), len(got[2]), "right" if got[1] is common else "WRONG", up, down))
+        if up and (got[0][0] is not a or got[0][-1].parent is not common):
+            raise Violation("upwards", "chain of %d nodes: upwards does not lead from the start node to below the common node" % depth)
+        if down and (got[2][-1] is not b or got[2][0].parent is not common):
+            raise Violation("downwards", "chain of %d nodes: downwards does not lead from below the common node to the end node" % depth)
+    for a, b in ((leaf, other), (other, leaf)):
+        try:
+            walker.walk(a, b)
+            raise Violation("walkerror-missing", "chain of %d nodes: walking to a node of another tree returned something" % depth)
+        except WalkError:
+            pass
+    acc.evaluations += 5
+    acc.nontrivial(True)
+    acc.tag("chains_of_tens_of_thousands_of_levels")
+
+
 def check_vee(case, acc):
     """Two long branches that fork directly at the root (a deep 'V'), plus twigs: pairs across the fork at many depths."""
     from .. import big
@@ -182,6 +214,8 @@ def check_case(case, acc):
         return check_optimised(case, acc)
     if case.get("kind") == "vee":
         return check_vee(case, acc)
+    if case.get("kind") == "abyss":
+        return check_abyss(case, acc)
     if case.get("kind") == "deep":
         return check_deep(case, acc)
     make = nodes.factory(case["cls"])
@@ -266,10 +300,17 @@ def plan(tier, seed):
     tasks += [{"engine": "deep", "depth": d, "cls": c} for d in ((700, 1500) if tier == "quick" else (300, 700, 1500, 3000)) for c in ("Node", "SlotLM", "AnyNode")]
     tasks += [{"engine": "vee", "depth": d, "cls": c, "trunk": t} for d in ((300,) if tier == "quick" else (140, 300, 1200)) for c in ("Node", "SlotLM", "EqNode", "EqSlotLM", "LenNode") for t in ((0, 70) if tier == "quick" else (0, 31, 70, 200))]
     tasks += [{"engine": "optimised"}]
+    tasks += [{"engine": "abyss", "depth": d, "cls": c} for d in ((70000, 140000) if tier == "quick" else (40000, 70000, 140000, 300000)) for c in ("Node", "SlotLM")]
     return tasks
 
 
 def run_task(task, acc):
+    if task["engine"] == "abyss":
+        case = {"kind": "abyss", "depth": task["depth"], "cls": task["cls"]}
+        exc = acc.evaluate(check_case, case, enumerated=False)
+        if exc is not None:
+            acc.add_violation(case, exc)
+        return
     if task["engine"] == "vee":
         case = {"kind": "vee", "depth": task["depth"], "cls": task["cls"], "trunk": task.get("trunk", 0)}
         exc = acc.evaluate(check_case, case, enumerated=False)
